@@ -143,6 +143,27 @@ theorem execOp_inputs (v : TxView) (tx : Tx) :
     rcases blockInternal_same_or_touched v c with h | h
     · dsimp only; rw [h]; exact Or.inr ⟨⟨rfl, rfl, rfl⟩, rfl, rfl⟩
     · exact Or.inl h
+  · -- recoverFund (NEO)
+    split; · exact Or.inr keep
+    split
+    · exact Or.inr keep
+    · split; · exact Or.inr keep
+      split
+      · exact Or.inr keep
+      · rename_i w1 hw1
+        split
+        · exact Or.inr keep
+        · rename_i w2 hw2
+          rcases incBalance_same_or_touched hw2 with e2 | t2
+          · subst e2
+            rcases incBalance_same_or_touched hw1 with e1 | t1
+            · subst e1; exact Or.inr keep
+            · exact Or.inl t1
+          · exact Or.inl t2
+  · split; · exact Or.inr keep
+    split
+    · exact Or.inr keep
+    · exact Or.inr keep
   · exact Or.inr keep
   · exact Or.inr keep
 
@@ -200,6 +221,20 @@ theorem execOp_scm (v : TxView) (tx : Tx) : (execOp v tx).1.st.committee = v.st.
   · split; · rfl
     rename_i c _ _
     exact blockInternal_scm v c
+  · split; · rfl
+    split
+    · rfl
+    · split; · rfl
+      split
+      · rfl
+      · rename_i w1 hw1
+        split
+        · rfl
+        · rename_i w2 hw2; exact ((incBalance_frame hw2).scm).trans (incBalance_frame hw1).scm
+  · split; · rfl
+    split
+    · rfl
+    · rfl
   · rfl
   · rfl
 
